@@ -484,7 +484,7 @@ func Trunc(s string, n int) string { return trunc(s, n) }
 // Plan plans the operation with a planner of its own over the same data sources and returns the
 // post-processed fetch tree pretty-printed (diagnostics; Run uses the engine's own planner).
 func (l *Lab) Plan(operation, operationName string) (string, error) {
-	sp, err := l.planResponse(operation, operationName)
+	sp, err := l.planResponse(operation, operationName, nil)
 	if err != nil {
 		return "", err
 	}
@@ -494,8 +494,8 @@ func (l *Lab) Plan(operation, operationName string) (string, error) {
 // PlanFields describes the fields the post-processed response plan holds at a response path (response keys,
 // no list indices): one line per resolve.Field of that name with its own and inherited type conditions, e.g.
 // `pf7 on=[Facet1A] parentOn=[1:User]`.  Several lines = the renderer decides per object which one applies.
-func (l *Lab) PlanFields(operation, operationName string, path []string) ([]string, error) {
-	sp, err := l.planResponse(operation, operationName)
+func (l *Lab) PlanFields(operation, operationName string, variables []byte, path []string) ([]string, error) {
+	sp, err := l.planResponse(operation, operationName, variables)
 	if err != nil {
 		return nil, err
 	}
@@ -552,8 +552,13 @@ func describeField(f *resolve.Field) string {
 	return s
 }
 
-func (l *Lab) planResponse(operation, operationName string) (*plan.SynchronousResponsePlan, error) {
+// planResponse normalises like ExecutionEngine.Execute (the variable values decide @skip / @include there) and
+// plans with a planner of its own over the same data sources.
+func (l *Lab) planResponse(operation, operationName string, variables []byte) (*plan.SynchronousResponsePlan, error) {
 	req := &graphql.Request{Query: operation, OperationName: operationName}
+	if len(bytes.TrimSpace(variables)) > 0 {
+		req.Variables = json.RawMessage(variables)
+	}
 	nres, err := req.Normalize(l.Schema, astnormalization.WithRemoveFragmentDefinitions(),
 		astnormalization.WithRemoveUnusedVariables(), astnormalization.WithInlineFragmentSpreads())
 	if err != nil {
